@@ -334,5 +334,36 @@ def run(ctx):  # noqa: C901
     ctx.ob("R-LIVE", bm, "joint, marginal coefficients and outcome values all reach the objective matrix", not missing,
            "5 families flow into obj_mat" if not missing else f"{missing} never reach obj_mat: those terms of the inequality are dropped")
     r_dtype_cross_param(ctx, bm, params=data)
+    # coverage: the accumulation runs over the full grid of outcomes (2 x 2) and settings (m x m); the marginal terms are attached
+    # to the pairs (x, 1) and (1, y), so a data-dependent iteration (only non-zero joint coefficients) silently drops marginals
+    for acc in walk_no_nested(bm.node):
+        if isinstance(acc, ast.AugAssign) and isinstance(acc.target, ast.Name) and acc.target.id == "obj_mat":
+            loops = [lp for lp in walk_no_nested(bm.node) if isinstance(lp, ast.For) and any(x is acc for x in ast.walk(lp))]
+            its = [Nb(lp.iter) for lp in loops]
+            full_m = [t for t in its if t in (("call", "builtins.range", (("c", 1), ("+", (("c", 1), ("n", "m")))), ()), ("call", "builtins.range", (("n", "m"),), ()))]
+            two = [t for t in its if t == ("call", "builtins.range", (("c", 2),), ())]
+            def _value_dep(expr, depth=0):
+                """does the expression read the VALUES (not just the shape / length) of a coefficient family?"""
+                for x in ast.walk(expr):
+                    if isinstance(x, ast.Name) and x.id in data:
+                        # allowed: <param>.shape / len(<param>)
+                        par_ok = any((isinstance(p_, ast.Attribute) and p_.value is x and p_.attr in ("shape", "size", "ndim")) or
+                                     (isinstance(p_, ast.Call) and isinstance(p_.func, ast.Name) and p_.func.id == "len" and p_.args and p_.args[0] is x) for p_ in ast.walk(expr))
+                        if not par_ok:
+                            return True
+                    elif isinstance(x, ast.Name) and depth < 2 and bm.param(x.id) is None:
+                        for d_ in walk_no_nested(bm.node):
+                            if isinstance(d_, ast.Assign) and any(isinstance(t_, ast.Name) and t_.id == x.id for tg_ in d_.targets for t_ in ast.walk(tg_)) and d_.value is not expr:
+                                if _value_dep(d_.value, depth + 1):
+                                    return True
+                return False
+            datadep = [lp for lp in loops if _value_dep(lp.iter)]
+            okc = len(full_m) == 2 and len(two) == 2 and not datadep
+            ctx.ob("R-ENUM", bm, "objective accumulates over all outcomes (2 x 2) and all setting pairs (m x m)", True if okc else False if (datadep or len(loops) < 4 or all(t[0] == "call" and t[1] == "builtins.range" for t in its)) else None,
+                   "four nested full ranges" if okc else
+                   (f"`for {unparse(datadep[0].target)} in {unparse(datadep[0].iter)[:50]}` makes the set of setting pairs depend on the coefficient values: pairs with a zero "
+                    "joint coefficient are skipped together with the marginal terms attached to them" if datadep else f"accumulation is nested in {len(loops)} loop(s) {[show(t)[:30] for t in its]}"),
+                   acc, required=okc or bool(datadep) or len(loops) < 4 or all(t[0] == "call" and t[1] == "builtins.range" for t in its))
+            break
     from .npa_common import check_npa
     check_npa(ctx)
